@@ -406,7 +406,7 @@ def replay(chk, cc, keys, rng, what, quiet=False):
     if tag in _replayed:
         return
     nt, nv = 2, 2
-    for kind in ("generic", "cubic", "isotropic", "cubic", "isotropic"):
+    for kind in ("generic", "cubic", "isotropic", "cubic", "isotropic", "small-coupling"):
         n0 = len(chk.violations) + len(chk.known_hits)
         _replay_kind(chk, cc, keys, rng, what, kind, tag)
         if len(chk.violations) + len(chk.known_hits) > n0:
@@ -434,7 +434,27 @@ def _replay_kind(chk, cc, keys, rng, what, kind, tag):
             Cm[i, i] = c11
             Cm[i + 3, i + 3] = c44
     Cm = Cm * 0.01
+    if kind == "small-coupling":
+        # a coupling component of a few GPa (3e-4 Ry/bohr^3) next to moduli of some hundred GPa
+        Cm = numpy.diag([0.02, 0.021, 0.019, 0.006, 0.0065, 0.0055])
+        Cm[0, 1] = Cm[1, 0] = 0.008
+        Cm[0, 2] = Cm[2, 0] = 0.0075
+        Cm[1, 2] = Cm[2, 1] = 0.0082
+        for i in range(6):
+            for j in range(i + 1, 6):
+                if "c%d%d" % (i + 1, j + 1) in keys and Cm[i, j] == 0:
+                    Cm[i, j] = Cm[j, i] = 3e-4
     calc = object.__new__(cc.Calculator)
+    # what the real Calculator carries besides the data: its configuration (packaged defaults; the fill's drop tolerance raised, as a user may)
+    try:
+        import yaml
+        import cij.data
+        with open(cij.data.get_data_fname("default/settings.yaml")) as fp:
+            cfg_ = yaml.safe_load(fp)
+        cfg_["elast"]["settings"]["symmetry"]["drop_atol"] = 1e-3
+        calc.__dict__["config"] = cfg_
+    except Exception:
+        pass
     q = PC.Obj()
     q.t_array = numpy.array([0.0, 300.0])
     q.v_array = numpy.array([300.0, 280.0])
@@ -593,6 +613,12 @@ def main():
     for n in names:
         run_keyset(chk, cc, n, KEYSETS[n], tier, rng)
     history_obligation(chk, cc, names, rng)
+    # concrete twin: a coupling component of a few GPa with the fill's drop tolerance raised in the configuration (symbolic components are
+    # never "close to zero", so a magnitude test on them is visible only on numbers)
+    n0 = len(chk.violations) + len(chk.known_hits)
+    _replay_kind(chk, cc, KEYSETS["orthotropic-9 + c46"], rng, "small-coupling twin", "small-coupling", "small-coupling")
+    if len(chk.violations) + len(chk.known_hits) == n0:
+        chk.side_check("small-coupling twin: a 4 GPa coupling component enters compliances, averages and velocities (drop_atol raised to 1e-3 in the configuration)", True)
     ordering(chk, cc, tier, rng)
     ryk, na = si_constants()
     from cij.util import units
